@@ -165,7 +165,7 @@ def c09(mir, lit_written=None):
     for i in set(ids):
         if ids.count(i) > 1:
             v.append(("dup-fn", f"function id {i} is listed {ids.count(i)} times"))
-    for f in live:
+    for f in sorted(needed_fns):
         if f not in ids:
             v.append(("missing-fn", f"referenced function {f} is not listed"))
     used_inputs, used_lits = set(), set()
